@@ -127,6 +127,20 @@ pub fn program(ch: &mut Choices, o: &WildOpts) -> (Vec<Line>, WildInfo) {
         for _ in 0..nb {
             match ch.weighted(&[6, 4, if entry_labels.is_empty() { 0 } else { 3 }, 1]) {
                 0 => body.extend(value_setup(ch)),
+                1 if !o.c03_domain && ch.chance(1, 25) => {
+                    // traffic through a pointer kept in a CSR: a value is stored, read back, stored
+                    // into a second slot and read back again (each read depends on the one before)
+                    let p = *ch.pick(&[10u8, 5, 28]);
+                    let (a, b, c) = (syn::gp_reg(ch), syn::gp_reg(ch), syn::gp_reg(ch));
+                    let (k1, k2) = (4 * ch.int_in(-2, 2), 4 * ch.int_in(3, 5));
+                    body.push(ins("li", vec![r(a), i(ch.int_in(1, 9))]));
+                    body.push(ins("csrrw", vec![r(p), Opd::C("uscratch".into()), r(p)]));
+                    body.push(ins("sw", vec![r(a), m(k1, p)]));
+                    body.push(ins("li", vec![r(a), i(ch.int_in(10, 19))]));
+                    body.push(ins("lw", vec![r(b), m(k1, p)]));
+                    body.push(ins("sw", vec![r(b), m(k2, p)]));
+                    body.push(ins("lw", vec![r(c), m(k2, p)]));
+                }
                 1 => body.extend(syn::plain_ins(ch, &data_labels)),
                 2 => {
                     // call
